@@ -12,6 +12,7 @@ ASSUMPTIONS = [
     "interleaving of threads is a sequence of whole critical sections, which is what a step list is",
     "one receiver task per channel (the receiver futures need &mut / are awaited by one task), so a re-registration "
     "replaces the waker of the same task",
+    "the model and the check assume fixes/D39.patch is applied to dcps/channels/mpsc.rs",
 ]
 
 ONE_ALPHA = ["o.send 5", "o.drops", "o.poll 1", "o.poll 2", "o.dropr"]
@@ -19,7 +20,7 @@ MPSC_ALPHA = ["m.send 0 V", "m.send 1 V", "m.clone 0 1", "m.drops 0", "m.drops 1
 NOTIF_ALPHA = ["n.notify 0", "n.notify 1", "n.clone 0 1", "n.drops 0", "n.drops 1", "n.poll 1", "n.poll 2", "n.dropr"]
 
 CORPUS = [
-    # D39 exemplar: last sender dropped, queue empty -> receive must report disconnection
+    # D39 exemplar (fixed by fixes/D39.patch; kept as regression): last sender dropped, queue empty -> receive must report disconnection
     ["m.drops 0", "m.poll 1"],
     ["m.poll 1", "m.drops 0", "m.poll 1"],
     ["m.send 0 1", "m.drops 0", "m.poll 1", "m.poll 1"],
@@ -274,19 +275,22 @@ LEVEL_TEXT = ("Kernel-checked Lean theorems over ALL step lists of the three cha
               "critical_section::with block of the code; threads = arbitrary interleaving): one-shot value received exactly once "
               "and only if sent (C34_oneshot_exactly_once, _outputs_once), poll answers exactly what the history demands, Err iff "
               "dropped unsent (C34_oneshot_poll_spec, _err_iff), a pending un-woken receiver is always still registered with nothing "
-              "to receive and is woken by send and by sender drop (C34_oneshot_no_lost_wakeup, _wake_on_send_and_drop); mpsc: "
-              "received ++ queued = sent (C34_mpsc_fifo), every send wakes (C34_mpsc_send_wakes, _no_lost_wakeup); notification: "
-              "sender_count = live handles, no underflow (C34_notify_count), Ready iff a notify happened since the last Ready, Err iff no "
-              "sender left (C34_notify_poll_spec), no lost wake-up (C34_notify_no_lost_wakeup, _wakes). PARTIAL for mpsc "
-              "disconnection: is_closed is never set (D39, open finding; C34_mpsc_disconnect_counterexample replayed on the real "
-              "code, C34_mpsc_never_closed); C34_mpsc_poll_spec_partial proves the specified answer in every state except "
-              "'no sender left and queue empty'. Tied to the real channels by exhaustive short and random long step lists with "
-              "hand-polled futures and counting wakers.")
+              "to receive and is woken by send and by sender drop (C34_oneshot_no_lost_wakeup, _wake_on_send_and_drop); mpsc (code "
+              "with fixes/D39.patch): received ++ queued = sent (C34_mpsc_fifo), sender_count = live handles and closed iff none "
+              "(C34_mpsc_count), receive answers the oldest value, None exactly when all senders are dropped and the queue is "
+              "empty, else Pending (C34_mpsc_poll_spec, full), every send and the last sender drop wake the receiver "
+              "(C34_mpsc_send_wakes, _last_drop_wakes, _no_lost_wakeup); notification: sender_count = live handles, no underflow "
+              "(C34_notify_count), Ready iff a notify happened since the last Ready, Err iff no sender left "
+              "(C34_notify_poll_spec), no lost wake-up (C34_notify_no_lost_wakeup, _wakes). The former defect D39 (mpsc never "
+              "reported disconnection) is kept as regression witness C34_mpsc_disconnect_counterexample on the pre-patch model "
+              "function. Tied to the real channels by exhaustive short and random long step lists with hand-polled futures and "
+              "counting wakers.")
 LEVEL_NOTE = ("Trusted / outside the model: mutual exclusion of critical_section::with (std feature of the critical-section crate) "
               "and the memory ordering it provides - the model takes each critical section as atomic; thread scheduling itself "
               "(the x.* threaded stress ops are a test of that assumption, not a proof); Arc reference counting; the Lean kernel "
               "(axioms audited); the hand-written model Model/Chan.lean; the chan harness (hand-polled futures, std::task::Wake "
               "counting wakers); the Python oracle. `o.send` in the harness is the whole send(self) = two critical sections; the "
-              "interleavings between them exist only in the theorems.")
+              "interleavings between them exist only in the theorems. Requires fixes/D39.patch: on a tree without it the check "
+              "reports VIOLATION (cause mpsc-no-disconnect).")
 DESIGN_REF = "DESIGN.md section 5 C34"
 TRUSTED_EXTRA = ["critical-section crate (std implementation): mutual exclusion of critical_section::with is assumed, not proved"]
